@@ -684,7 +684,10 @@ class Stream(AbstractStream):
         """
         if isinstance(stream_data, StreamData):
             self.phases = stream_data._phases
-            self._imol.copy_like(stream_data._imol)
+            imol = stream_data._imol
+            if isinstance(imol, MaterialIndexer) and not isinstance(self._imol, MaterialIndexer):
+                imol = imol.get_phase(self.phase) # Data of a multi-stream with a single phase
+            self._imol.copy_like(imol)
             self._thermal_condition.copy_like(stream_data)
         else:
             raise ValueError(f'stream_data must be a StreamData object; not {type(stream_data).__name__}')
